@@ -516,4 +516,154 @@ theorem zIncBy_eq (cur : List (Int × Bytes)) (d : Int) (m : Bytes) (h : (cur.ma
   have hsub : ((cur.filter fun q => !(q.2 == m)).map Prod.snd).Nodup := (List.filter_sublist.map Prod.snd).nodup h
   simp only [zAddOne_eq _ _ hsub, List.filter_filter, bne, Bool.and_self]
 
+/-! ## hash.go -/
+
+theorem lookup_filter_ne (h : GoMap) (f g : Bytes) :
+    ((h.filter (fun p => !(p.1 == f))).lookup g).isSome = (!(g == f) && (h.lookup g).isSome) := by
+  induction h with
+  | nil => simp
+  | cons p ps ih =>
+    obtain ⟨a, b⟩ := p
+    by_cases hp : a = f
+    · subst hp
+      by_cases hg : g = a
+      · subst hg; simp [List.filter_cons, ih]
+      · have hb : (g == a) = false := by simp [hg]
+        simp only [List.filter_cons, beq_self_eq_true, Bool.not_true, Bool.false_eq_true, if_false, ih, List.lookup_cons, hb]
+    · by_cases hg : g = a
+      · subst hg
+        have hb : (g == f) = false := by simp [hp]
+        simp [List.filter_cons, hp, List.lookup_cons, hb]
+      · have hb : (g == a) = false := by simp [hg]
+        have hc : (a == f) = false := by simp [hp]
+        simp only [List.filter_cons, hc, Bool.not_false, if_true, List.lookup_cons, hb, ih]
+
+theorem absent_ne (h : GoMap) (f : Bytes) (ha : (h.lookup f).isSome = false) : ∀ p ∈ h, (p.1 == f) = false := by
+  induction h with
+  | nil => simp
+  | cons p ps ih =>
+    obtain ⟨a, b⟩ := p
+    by_cases hf : f = a
+    · subst hf; simp [List.lookup_cons] at ha
+    · have hb : (f == a) = false := by simp [hf]
+      simp only [List.lookup_cons, hb] at ha
+      intro q hq
+      simp only [List.mem_cons] at hq
+      rcases hq with rfl | hq
+      · simp; exact fun e => hf e.symm
+      · exact ih ha q hq
+
+theorem filter_ne_of_not_mem (l : List Bytes) (f : Bytes) (P : Bytes → Bool) (hf : f ∉ l) :
+    l.filter (fun g => !(g == f) && P g) = l.filter P := by
+  apply List.filter_congr
+  intro g hg
+  have : g ≠ f := fun e => hf (e ▸ hg)
+  simp [this]
+
+theorem count_split (l : List Bytes) (f : Bytes) (P : Bytes → Bool) (hn : l.Nodup) (hf : f ∈ l) (hP : P f = true) :
+    (l.filter P).length = (l.filter (fun g => !(g == f) && P g)).length + 1 := by
+  induction l with
+  | nil => simp at hf
+  | cons a as ih =>
+    have hna := List.nodup_cons.mp hn
+    by_cases ha : a = f
+    · subst ha
+      rw [List.filter_cons, List.filter_cons]
+      simp only [hP, if_true, beq_self_eq_true, Bool.not_true, Bool.false_and, Bool.false_eq_true, if_false, List.length_cons]
+      rw [filter_ne_of_not_mem as a P hna.1]
+    · have hfa : f ∈ as := by
+        simp only [List.mem_cons] at hf
+        rcases hf with rfl | hf
+        · exact absurd rfl ha
+        · exact hf
+      have hb : (a == f) = false := by simp [ha]
+      rw [List.filter_cons, List.filter_cons]
+      simp only [hb, Bool.not_false, Bool.true_and]
+      by_cases hPa : P a = true
+      · simp only [hPa, if_true, List.length_cons, ih hna.2 hfa]
+      · have hPa' : P a = false := by simpa using hPa
+        simp only [hPa', Bool.false_eq_true, if_false, ih hna.2 hfa]
+
+theorem hashDel_fold (fs : List Bytes) (h : GoMap) (n : Nat) :
+    fs.foldl (fun (acc : GoMap × Nat) f =>
+      if (acc.1.lookup f).isSome then (mapDelete acc.1 f, acc.2 + 1) else acc) (h, n) =
+    (h.filter (fun p => !fs.contains p.1), n + ((dedup fs).filter (fun f => (h.lookup f).isSome)).length) := by
+  induction fs generalizing h n with
+  | nil =>
+    have : h.filter (fun _ => true) = h := List.filter_eq_self.mpr (by simp)
+    simp [dedup, this]
+  | cons f fs ih =>
+    simp only [List.foldl_cons]
+    by_cases hp : (h.lookup f).isSome = true
+    · simp only [hp, if_true]
+      rw [ih]
+      congr 1
+      · simp only [mapDelete, List.filter_filter]
+        apply List.filter_congr
+        intro p _
+        by_cases e : p.1 = f <;> simp [e, List.contains_cons]
+      · have hfun : (fun g => ((mapDelete h f).lookup g).isSome) = (fun g => !(g == f) && (h.lookup g).isSome) := by
+          funext g; exact lookup_filter_ne h f g
+        rw [hfun]
+        simp only [dedup]
+        by_cases hc : fs.contains f = true
+        · simp only [hc, if_true]
+          have hm : f ∈ dedup fs := (mem_dedup fs f).mpr (by simpa using hc)
+          rw [count_split (dedup fs) f (fun g => (h.lookup g).isSome) (dedup_nodup' fs) hm hp]
+          omega
+        · have hc' : fs.contains f = false := by simpa using hc
+          simp only [hc', Bool.false_eq_true, if_false]
+          have hm : f ∉ dedup fs := fun hm => hc (by simpa using (mem_dedup fs f).mp hm)
+          rw [List.filter_cons]
+          simp only [hp, if_true, List.length_cons]
+          rw [filter_ne_of_not_mem (dedup fs) f _ hm]
+          omega
+    · have hp' : (h.lookup f).isSome = false := by
+        cases hq : (h.lookup f).isSome
+        · rfl
+        · exact absurd hq hp
+      simp only [hp', Bool.false_eq_true, if_false]
+      rw [ih]
+      congr 1
+      · apply List.filter_congr
+        intro p hpm
+        have := absent_ne h f hp' p hpm
+        have hne : p.1 ≠ f := by simpa using this
+        simp [List.contains_cons, hne]
+      · simp only [dedup]
+        by_cases hc : fs.contains f = true
+        · simp only [hc, if_true]
+        · have hc' : fs.contains f = false := by simpa using hc
+          simp only [hc', Bool.false_eq_true, if_false]
+          rw [List.filter_cons]
+          simp only [hp', Bool.false_eq_true, if_false]
+
+theorem mem_lookup_isSome (h : GoMap) (p : Bytes × Bytes) (hp : p ∈ h) : (h.lookup p.1).isSome = true := by
+  cases hq : (h.lookup p.1).isSome
+  · have := absent_ne h p.1 hq p hp
+    simp at this
+  · rfl
+
+theorem hashSet_eq (h : GoMap) (f v : Bytes) (nx : Bool) :
+    hashSet h f v nx = (match h.lookup f with
+      | some _ => if nx then (h, 0) else (h.map (fun p => if p.1 == f then (f, v) else p), 0)
+      | none => (h ++ [(f, v)], 1)) := by
+  unfold hashSet mapAssign
+  cases hl : h.lookup f <;> cases nx <;> simp
+
+theorem hashDel_eq (h : GoMap) (fields : List Bytes) :
+    hashDel h fields =
+      (let gone := (dedup fields).filter fun f => (h.lookup f).isSome
+       (h.filter fun p => !gone.contains p.1, gone.length)) := by
+  unfold hashDel
+  rw [hashDel_fold]
+  simp only [Nat.zero_add]
+  congr 1
+  apply List.filter_congr
+  intro p hp
+  have hs := mem_lookup_isSome h p hp
+  congr 1
+  apply Bool.eq_iff_iff.mpr
+  simp only [List.contains_iff_mem, List.mem_filter, mem_dedup, hs, and_true]
+
 end GoRedis.Ex
